@@ -95,6 +95,9 @@ def definitions(draw):
     if draw(st.integers(0, 2)) == 0 and len(vols) >= 2:
         d["valid"] = [vols[0], vols[1]]        # vols[0] >= vols[1]
     d["vectorized"] = draw(st.booleans())
+    if draw(st.integers(0, 3)) == 0:
+        # an early return with an integer literal below a cut (a beam stop): "return 0" in both languages
+        d["beamstop"] = draw(st.sampled_from([0.004, 0.02, 0.08]))
     return d
 
 
@@ -156,7 +159,8 @@ def source(d, lang, name, ill=None):
     vol_pars = [p["name"].split("[")[0] for p in d["pars"] if p["type"] == "volume"]
     expr = " * ".join(render_factor(f, lang) for f in d["factors"])
     if lang == "c":
-        out.append('Iq = "return %s;"\n' % expr)
+        stop = ("if (q < %r) return 0; " % d["beamstop"]) if "beamstop" in d else ""
+        out.append('Iq = "%sreturn %s;"\n' % (stop, expr))
         if d.get("oriented"):
             # axially symmetric 2-D intensity: the same expression at |q| times (1 + cos^2(angle to the axis)/2)
             out.append('Iqac = "const double q = sqrt(qab*qab + qc*qc); return (%s)*(1.0 + 0.5*qc*qc/(q*q));"\n' % expr)
@@ -172,10 +176,18 @@ def source(d, lang, name, ill=None):
         if "valid" in d:
             out.append('valid = "%s >= %s"\n' % tuple(d["valid"]))
     else:
-        body = expr
-        if "valid" in d:
-            body = "np.where(%s >= %s, %s, np.nan)" % (d["valid"][0], d["valid"][1], expr)
-        out.append("def Iq(q, %s):\n    return %s + 0*q\n" % (", ".join(iq_pars), body))
+        # the validity region is encoded as NaN (the Python path's convention) and is tested first
+        if "beamstop" in d and not d["vectorized"]:
+            guard = ("    if not (%s >= %s):\n        return np.nan\n" % tuple(d["valid"])) if "valid" in d else ""
+            out.append("def Iq(q, %s):\n%s    if q < %r:\n        return 0\n    return %s + 0*q\n"
+                       % (", ".join(iq_pars), guard, d["beamstop"], expr))
+        else:
+            body = expr + " + 0*q"
+            if "beamstop" in d:
+                body = "np.where(q < %r, 0, %s)" % (d["beamstop"], body)
+            if "valid" in d:
+                body = "np.where(%s >= %s, %s, np.nan)" % (d["valid"][0], d["valid"][1], body)
+            out.append("def Iq(q, %s):\n    return %s\n" % (", ".join(iq_pars), body))
         if d["vectorized"]:
             out.append("Iq.vectorized = True\n")
         if "volume" in d:
@@ -272,9 +284,11 @@ def direct_reference(d, info, req, qabs, cutoff, mode):
             args.append(v)
             if p["type"] == "volume":
                 vargs.append(v)
-        f2 = np.asarray(mod["Iq"](qabs, *args), float) if "valid" not in d else np.asarray(
+        f2 = np.asarray(
             eval(" * ".join(render_factor(f, "py") for f in d["factors"]),
                  dict(mod, q=qabs, **{p["name"].split("[")[0]: a for p, a in zip(d["pars"], args)})), float) + 0 * qabs
+        if "beamstop" in d:
+            f2 = np.where(qabs < d["beamstop"], 0.0, f2)
         form = mod["form_volume"](*vargs) if "volume" in d else 1.0
         shell = mod["shell_volume"](*vargs) if "shell" in d else form
         tot += w * f2
@@ -307,7 +321,7 @@ def check_pair(case, rec):
     nvol = sum(1 for p in d["pars"] if p["type"] == "volume")
     rec.cls("dim:" + dim, "geom:" + geom, "vector" if d["vec"] else "scalar-only",
             "vectorized" if d["vectorized"] else "scalar-Iq")
-    for k in ("shell", "reff", "valid"):
+    for k in ("shell", "reff", "valid", "beamstop"):
         if k in d:
             rec.cls("has-" + k)
     rec.nontrivial(nvol >= 1 and mesh.size >= 2, case)
@@ -356,6 +370,7 @@ def oriented_cases(draw):
     d = draw(definitions())
     d = dict(d, oriented=True, vectorized=False)
     d.pop("valid", None)
+    d.pop("beamstop", None)
     case = draw(requests(d))
     case["dim"] = "2d"
     case.pop("q", None)
@@ -457,6 +472,6 @@ def plan(tier):
 
 def run_shard(ctx, spec):
     quick = ctx.tier == "quick"
-    ctx.explore("pair", cases(), 60 if quick else 2500, shrink_examples=40)
+    ctx.explore("pair", cases(), 130 if quick else 2500, shrink_examples=40)
     ctx.explore("ill", ill_cases(), 14 if quick else 80, shrink_examples=8)
     ctx.explore("oriented", oriented_cases(), 12 if quick else 300, shrink_examples=12, salt=3)
